@@ -197,6 +197,7 @@ class Run:
         self.n_probe = 0
         self.spawn_errors: list = []
         self.spawn_refused: list = []
+        self.prebuilt: dict[int, dict] = {}
         self.cancel_phases: list[tuple] = []
         self.cancel_in_cleanup: list[bool] = []
         self.pending_at_cancel: list[list[str]] = []
@@ -281,7 +282,8 @@ class Run:
     async def run_block(self, b: dict, env: list[dict], in_scope: bool, owner) -> None:  # noqa: C901, PLR0912, PLR0915
         bid = b["id"]
         kind = b["kind"]
-        states = make_states(b.get("supply", ["A"]), f"b{bid}")
+        pre = self.prebuilt.get(bid)
+        states = pre["states"] if pre else make_states(b.get("supply", ["A"]), f"b{bid}")
         self.keep.extend(states)
         level = {}
         for s, nm in zip(states, b.get("supply", ["A"])):
@@ -289,7 +291,7 @@ class Run:
             level[nm] = s.tag
         if self.probes:
             self.fingerprint(bid, "pre", env, in_scope, owner)
-        doubles = [DispDouble(self, bid, i, spec) for i, spec in enumerate(b.get("disp", []))]
+        doubles = pre["doubles"] if pre else [DispDouble(self, bid, i, spec) for i, spec in enumerate(b.get("disp", []))]
         self.disp[bid] = doubles
         self.body_ran[bid] = False
         caught: BaseException | None = None
@@ -298,14 +300,14 @@ class Run:
         try:
             self.phase[:] = ["entering", bid]
             if kind == "ascope":
-                cm = ctx.scope(f"b{bid}", *states, disposables=doubles or None)
+                cm = pre["cm"] if pre else ctx.scope(f"b{bid}", *states, disposables=doubles or None)
                 async with cm:
                     await self.body(b, [*env, level], bid)
             elif kind == "sscope":
-                with ctx.scope(f"b{bid}", *states):
+                with (pre["cm"] if pre else ctx.scope(f"b{bid}", *states)):
                     await self.body(b, [*env, level], owner)
             else:
-                with ctx.updated(*states):
+                with (pre["cm"] if pre else ctx.updated(*states)):
                     await self.body(b, [*env, level], owner)
         except BaseException as exc:  # noqa: BLE001
             caught = exc
@@ -454,13 +456,33 @@ class Run:
         root = prog["block"]
         number_blocks(root)
 
+        def prebuild(b, inside: str) -> None:
+            """blocks flagged `prepared`: the context-manager object is built ahead of time - at the
+            very start of the program, outside everything ("start") or inside the outer scope but
+            outside the block's parent ("outer") - and only entered at the block's position"""
+            while b is not None:
+                if b.get("prepared") == inside:
+                    bid = b["id"]
+                    states = make_states(b.get("supply", ["A"]), f"b{bid}")
+                    doubles = [DispDouble(self, bid, i, spec) for i, spec in enumerate(b.get("disp", []))]
+                    if b["kind"] == "ascope":
+                        cm = ctx.scope(f"b{bid}", *states, disposables=doubles or None)
+                    elif b["kind"] == "sscope":
+                        cm = ctx.scope(f"b{bid}", *states)
+                    else:
+                        cm = ctx.updated(*states)
+                    self.prebuilt[bid] = {"cm": cm, "states": states, "doubles": doubles}
+                b = b.get("child")
+
         async def main():
+            prebuild(root, "start")
             if prog.get("outer"):
                 outer_states = make_states(["A"], "outer")
                 self.keep.extend(outer_states)
                 self.supplied[id(outer_states[0])] = outer_states[0].tag
                 self.phase[:] = ["body", "outer"]
                 async with ctx.scope("outer", *outer_states):
+                    prebuild(root, "outer")
                     try:
                         await self.run_block(root, [{"A": outer_states[0].tag}], True, "outer")
                     finally:
